@@ -218,7 +218,7 @@ def parse_checks(text):
     """Return list of dicts(name,status,description,location) for every 'Check N:' block."""
     out = []
     for m in re.finditer(
-            r"^Check \d+: (\S+)\n\s+- Status: (\S+)\n\s+- Description: \"(.*?)\"\n\s+- Location: (.*?)$",
+            r"^Check \d+: (.+?)\n\s+- Status: (\S+)\n\s+- Description: \"(.*?)\"\n\s+- Location: (.*?)$",
             text, re.M | re.S):
         out.append({"name": m.group(1), "status": m.group(2),
                     "description": m.group(3), "location": m.group(4).strip()})
@@ -554,6 +554,8 @@ def main(argv):
         caps = plan.TIER_CAPS[tier]
         o.setdefault("cap_s", caps["cap_s"])
         o.setdefault("mem_gb", caps["mem_gb"])
+        if tier == "quick":
+            o["cap_s"] = min(o["cap_s"], caps["cap_s"])
     rnd = random.Random(seed)
     # the seed only permutes scheduling order (longest first within a stable shuffle)
     rnd.shuffle(obs)
